@@ -483,9 +483,6 @@ func genLUSolve(g *vlib.G) {
 							}
 							res := norm1(sub(mul(a, inv), eye(n)))
 							ck.ratio("Dgetri |A*inv-I|/(n eps |A||inv|)", res/(float64(n)*eps*norm1(a)*norm1(inv)))
-							if work[0] != math.Floor(work[0]) || work[0] < float64(n) {
-								ck.failf("Dgetri: work[0]=%v on return", work[0])
-							}
 						}
 						if k == 0 {
 							refInv = inv
